@@ -20,6 +20,7 @@ mod pair;
 mod loadseq;
 mod detect;
 mod serdecmd;
+mod hdr;
 
 thread_local! {
     pub static LAST_PANIC: std::cell::RefCell<String> = std::cell::RefCell::new(String::new());
@@ -48,6 +49,7 @@ pub fn dispatch(line: &str) -> String {
     }
     match toks[0] {
         "tables" => tables::tables(&toks),
+        "vcdhdr" => hdr::vcdhdr(&toks),
         "serdert" => serdecmd::serdert(&toks),
         "serdejson" => serdecmd::serdejson(&toks),
         "detect" => detect::detect(&toks),
